@@ -282,6 +282,14 @@ def check_case(case: dict[str, Any], col: common.Collector) -> Any:
     R = desc["nranks"]
     # partition under a random collective schedule
     pr = distrun.partition_all(desc, simmpi.RandomChooser(desc["seed"], "uniform"))
+    if not pr.errors and len(pr.partitions) != R:
+        blocked = next((d for _s, _r, k, d in pr.world.events if k == "deadlock"), None)
+        col.violation(f"C09:collective-deadlock:{'+'.join(sorted({pr.stage.get(r, '?') for r in range(R) if r not in pr.partitions}))}",
+                      f"no rank raised, but only ranks {sorted(pr.partitions)} of {R} returned "
+                      f"from find/verify/number: the others wait in a collective forever "
+                      f"({blocked}); stages {pr.stage}", wit)
+        col.case()
+        return None
     if pr.errors or len(pr.partitions) != R:
         for r, e in pr.errors.items():
             col.violation(f"C09:raises:{pr.stage.get(r)}:{type(e).__name__}@{common.exc_site(e)}",
